@@ -63,7 +63,10 @@ theorem T2_walker_pages_partial (hs : H.Sound) (ps : PageSet Node) (root : Node)
     (by simpa using hso) (by simpa using hps) (by simpa using hDp) (runInv_start H ps _ root S S' steps inhibit)
   simp only [List.nil_append] at hinv
   obtain ⟨pages, hc, hp⟩ := conclude_spec H ps hs hS hS' hso hrepR (Or.inl (Or.inl rfl)) hinv
-  exact ⟨w', pages, hw', hc, hp⟩
+  refine ⟨w', pages, hw', hc, ?_⟩
+  intro o ho
+  obtain ⟨P, pg, d, b, e, hl, hm, _⟩ := hp o ho
+  exact ⟨P, pg, d, b, e, hl, hm⟩
 
 /-- **T2_walker_total — the documented panics** (any walker state): advancing to a position that is not greater than the
 previous one (backwards or the same) reaches `assert!(new_pos.path() > pos.path())`. -/
